@@ -392,6 +392,13 @@ impl CelValue {
         CelValue::from_err(CelError::value("Integer overflow"))
     }
 
+    fn checked_or_out_of_range<T: Into<CelValue>>(val: Option<T>) -> CelValue {
+        match val {
+            Some(v) => v.into(),
+            None => CelValue::from_err(CelError::value("Time value out of range")),
+        }
+    }
+
     fn checked_or_overflow<T: Into<CelValue>>(val: Option<T>) -> CelValue {
         match val {
             Some(v) => v.into(),
@@ -1320,12 +1327,16 @@ impl Add for CelValue {
                 }
                 CelValue::TimeStamp(v1) => {
                     if let CelValue::Duration(v2) = rhs {
-                        return CelValue::from_timestamp(v1 + v2);
+                        return CelValue::checked_or_out_of_range(v1.checked_add_signed(v2));
                     }
                 }
                 CelValue::Duration(v1) => match rhs {
-                    CelValue::TimeStamp(v2) => return CelValue::from_timestamp(v2 + v1),
-                    CelValue::Duration(v2) => return CelValue::Duration(v1 + v2),
+                    CelValue::TimeStamp(v2) => {
+                        return CelValue::checked_or_out_of_range(v2.checked_add_signed(v1))
+                    }
+                    CelValue::Duration(v2) => {
+                        return CelValue::checked_or_out_of_range(v1.checked_add(&v2))
+                    }
                     _ => {}
                 },
                 _ => {}
@@ -1374,13 +1385,19 @@ impl Sub for CelValue {
                     }
                 }
                 CelValue::TimeStamp(v1) => match rhs {
-                    CelValue::Duration(v2) => return CelValue::from_timestamp(v1 - v2),
+                    CelValue::Duration(v2) => {
+                        return CelValue::checked_or_out_of_range(v1.checked_sub_signed(v2))
+                    }
                     CelValue::TimeStamp(v2) => return CelValue::from_duration(v1 - v2),
                     _ => {}
                 },
                 CelValue::Duration(v1) => match rhs {
-                    CelValue::TimeStamp(v2) => return CelValue::from_timestamp(v2 - v1),
-                    CelValue::Duration(v2) => return CelValue::from_duration(v1 - v2),
+                    CelValue::TimeStamp(v2) => {
+                        return CelValue::checked_or_out_of_range(v2.checked_sub_signed(v1))
+                    }
+                    CelValue::Duration(v2) => {
+                        return CelValue::checked_or_out_of_range(v1.checked_sub(&v2))
+                    }
                     _ => {}
                 },
                 _ => {}
